@@ -461,6 +461,29 @@ func c10Jobs(thorough bool) []c10Job {
 			}})
 		}
 	}
+	// (i) merge-predicate grid: a predicate with a functional dependency and a merge descriptor over every choice of
+	// source, target and merged columns, a deferred merge predicate of arity 3 or 5, and rules that derive facts agreeing
+	// on the source columns
+	jobs = append(jobs, c10Job{"merge-predicate grid", func(probe func(kind, input string)) {
+		cols := []string{"[]", "[X]", "[P]", "[Q]", "[P, Q]", "[X, P]", "[X, P, Q]", "[Z]"}
+		mdecls := []string{
+			"Decl m(A, B, C) descr [mode(\"+\", \"+\", \"-\"), deferred()].\nm(A, B, C) :- A < B, C = A.\nm(A, B, C) :- B <= A, C = B.\n",
+			"Decl m(A, B, C, D, E) descr [mode(\"+\", \"+\", \"+\", \"+\", \"-\"), deferred()].\nm(A, B, C, D, E) :- A < B, E = A.\n",
+			"Decl m(A, B, C) descr [mode(\"+\", \"+\", \"-\")].\nm(1, 2, 1).\n",
+			"",
+		}
+		for _, src := range cols {
+			for _, tgt := range cols {
+				for _, mrg := range cols {
+					for _, md := range mdecls {
+						unit := "Decl sp(X, P, Q) descr [fundep(" + src + ", " + tgt + "), merge(" + mrg + ", \"m\")].\n" + md + "n(1). n(2). n(3).\nsp(1, X, Y) :- n(X), n(Y).\nsp(X, X, 2) :- n(X).\n"
+						probe("unit", unit)
+						probe("unit", strings.Replace(unit, "fundep("+src+", "+tgt+"), ", "", 1))
+					}
+				}
+			}
+		}
+	}})
 	// (h) extreme literals: numbers, floats, durations and timestamps at and beyond what their types can hold, in every
 	// literal position of a few templates
 	jobs = append(jobs, c10Job{"extreme literals", func(probe func(kind, input string)) {
@@ -637,6 +660,6 @@ func c10(r *rt.Run) {
 	})
 	r.Extra["states"] = r.Get("evaluations")
 	r.Finish("(a) every token string of length <= k over a 49-token alphabet (k=3 quick, 4 thorough) and k+1 over a 29-token alphabet, offered to Unit/Clause/Term/LiteralOrFormula/PredicateName/Atom/BaseTerm; " +
-		"(b) every single-token deletion/duplication/replacement, every truncation and byte substitution of 19 valid sources (examples/*.mg + 3 inline; the quick tier leaves out the 9 KB flow_checking.mg); (c) every string <= 4 over 10 characters through ast.Unescape; (f) a built-in grid: every built-in function with every argument list of length <=3 over 5 argument forms in head / equality / let / reducer position and every built-in predicate with every argument list of length <=3 over 7 forms, plain and negated, x declarations x facts; (g) a type-expression grid: 12 constructors x every argument list of length <=3 over 9 forms x 6 values; (h) extreme literals in 12 templates; (e) a declaration grid: arity 0-3 x every pair of 33 descriptor items x 13 bound/inclusion forms x 4 continuations; " +
+		"(b) every single-token deletion/duplication/replacement, every truncation and byte substitution of 19 valid sources (examples/*.mg + 3 inline; the quick tier leaves out the 9 KB flow_checking.mg); (c) every string <= 4 over 10 characters through ast.Unescape; (f) a built-in grid: every built-in function with every argument list of length <=3 over 5 argument forms in head / equality / let / reducer position and every built-in predicate with every argument list of length <=3 over 7 forms, plain and negated, x declarations x facts; (g) a type-expression grid: 12 constructors x every argument list of length <=3 over 9 forms x 6 values; (h) extreme literals in 12 templates; (i) a merge-predicate grid (8x8x8 column choices x 4 merge-predicate declarations); (e) a declaration grid: arity 0-3 x every pair of 33 descriptor items x 13 bound/inclusion forms x 4 continuations; " +
 		"(d) line deletions/duplications/blankings/replacements, digit replacements and truncations of 6 fact files, plain/gzip/zstd; units that parse go on to AnalyzeAndCheckBounds and EvalProgram under a fact limit; non-trivial = inputs that parse as a unit")
 }
